@@ -57,6 +57,10 @@ def gen_cases(tier, rng):
     yield dict(level="public", op="nth", n=40000, codes=[[0, 70000], 1, 1, -1], ng=2, index="default", ncols=1, sort=True)
     yield dict(level="public", op="nth", n=-1, codes=[[0, 70000], 1, 1, -1], ng=2, index="default", ncols=1, sort=True)
     yield dict(level="public", op="head", n=33000, codes=[[0, 40000], 1, 1, -1], ng=2, index="default", ncols=1, sort=True)
+    # long keys (row selection of more than a million rows): a group with fewer than n rows in the last stretch of the key
+    yield dict(level="public", op="tail", n=2, codes=[[0, 400000], [1, 400000], 2, [0, 300000], 1, [0, 200000]], ng=3, index="default", ncols=1, sort=True)
+    yield dict(level="public", op="tail", n=3, codes=[[0, 500000], [1, 300000], 2, 2, [0, 300000], 1, [0, 200000], -1], ng=3, index="default", ncols=1, sort=True)
+    yield dict(level="public", op="head", n=3, codes=[1, [0, 500000], 2, [0, 500000], 1, [0, 200000], 2], ng=3, index="default", ncols=1, sort=True)
     n_small = 1500 if tier == "quick" else 30000
     for _ in range(n_small):
         L = rng.randint(0, 14)
@@ -68,6 +72,12 @@ def gen_cases(tier, rng):
         case = dict(level=level, op=op, n=n, codes=codes, ng=ng)
         if level == "public":
             case.update(index=rng.choice(["default", "nonmono", "dup"]), ncols=rng.choice([1, 1, 2]), sort=rng.random() < 0.7)
+            if rng.random() < 0.3:
+                # groups without any row: a categorical key with unused categories, or a boolean key with one value only
+                if ng <= 2 and -1 not in codes and rng.random() < 0.4:
+                    case["kclass"] = "bool"
+                else:
+                    case.update(kclass="cat", unused=rng.choice([1, 3, 12]))
         yield case
 
 
@@ -78,7 +88,7 @@ def spec_from_driver(case, drv, codes):
         model = None if ans["model"] == "assert" else ([[int(x)] for x in ans["model"].split(",")] if ans["model"] else [])
         return spec, model, ans
     fwd = 1 if case["op"] == "head" else 0
-    if case["n"] > 2000:
+    if case["n"] > 2000 or len(codes) > 200000:
         # the list-based model is quadratic in n: for the large-n boundary cases the specification
         # (first / last n positions of each group, -1 padded) is computed here directly
         n = case["n"]
@@ -106,10 +116,10 @@ def evaluate(case, drv):
     codes = expand(case["codes"])
     L = len(codes)
     spec, model, ans = spec_from_driver(case, drv, codes)
-    key = repr((case["codes"], case["n"], case["op"], case["level"], case.get("index"), case.get("ncols"), case.get("sort")))
+    key = repr((case["codes"], case["n"], case["op"], case["level"], case.get("index"), case.get("ncols"), case.get("sort"), case.get("kclass"), case.get("unused")))
     sizes = [codes.count(g) for g in range(case["ng"])]
     res = dict(tags=[f"level:{case['level']}", f"op:{case['op']}", "n:" + ("neg" if case["n"] < 0 else "zero" if case["n"] == 0 else "pos"),
-                     "large" if L > 1000 else "small", f"w:{ans.get('w')}"],
+                     "large" if L > 1000 else "small", f"w:{ans.get('w')}", f"keys:{case.get('kclass', 'float')}"],
                size=L if L < 100 else (L // 1000) * 1000, key=key, nontrivial=max(sizes + [0]) >= 2,
                bucket=(case["level"], case["op"], "large" if L > 1000 else "small", case.get("index")))
 
@@ -138,6 +148,10 @@ def evaluate(case, drv):
         return res
     # public level: keys = codes mapped to floats (null for -1), unique values identify rows
     keys = np.array([np.nan if c < 0 else c + 0.5 for c in codes])
+    if case.get("kclass") == "cat":
+        keys = pd.Categorical.from_codes(np.array(codes, dtype=np.int64), categories=[g + 0.5 for g in range(case["ng"] + case["unused"])])
+    elif case.get("kclass") == "bool":
+        keys = np.array([c == 1 for c in codes], dtype=bool)
     if case["index"] == "default":
         index = None
     elif case["index"] == "nonmono":
